@@ -319,3 +319,12 @@ package lazy
 //@   modifies cache.*, cache.flatTrans[*], family H:dfa/lazy.State, family E:*dfa/lazy.State, family E:dfa/lazy.StateID
 //@   ensures result != nil ==> cache.clearCount == old(cache.clearCount) && old(cache.clearCount) >= d.config.MaxCacheClears
 //@   ensures result == nil ==> cache.clearCount == old(cache.clearCount) + 1 && old(cache.clearCount) < d.config.MaxCacheClears
+
+// boolean search of the lazy DFA: semantics ASSUMED, named by an uninterpreted function (linked to the engine's
+// reference by meta's leafOK)
+//@ uninterpreted spec func dfaHasMatch(d *DFA, h []byte) bool
+//@ trusted func (*DFA).IsMatch
+//@   requires d != nil && cache != nil
+//@   modifies @searchState
+//@   ensures result == dfaHasMatch(d, haystack)
+//@ trusted func (*DFA).CacheStats
